@@ -2,6 +2,7 @@ package main
 
 import (
 	"fmt"
+	"regexp"
 	"go/token"
 	"go/types"
 	"sort"
@@ -15,6 +16,7 @@ type Val struct {
 	T   types.Type
 	L   []string
 	Loc *LocalAddr
+	Via []viaTag // for pointers produced by field addressing (see Addr.Via)
 }
 
 type LocalAddr struct {
@@ -67,6 +69,10 @@ type Ctx struct {
 	notes    map[string]bool // abstractions applied (havocked instructions, ...)
 	boolDefs  map[string]string
 	boolDefsN int
+	defCache    map[string]string
+	lastDefined string
+	syms        map[string]map[string]bool
+	symsN       int
 }
 
 func newCtx() *Ctx {
@@ -93,9 +99,24 @@ func (c *Ctx) define(hint, sort, term string) string {
 	if isAtom(term) {
 		return term
 	}
+	// hash-consing: the same term gets the same name (re-loads from an
+	// unchanged heap become syntactically identical)
+	if c.defCache == nil {
+		c.defCache = map[string]string{}
+	}
+	key := sort + "\x00" + term
+	if n, ok := c.defCache[key]; ok && !strings.Contains(term, "!q") && !strings.Contains(term, "k!l") {
+		return n
+	}
+	defer func() {
+		if !strings.Contains(term, "!q") && !strings.Contains(term, "k!l") {
+			c.defCache[key] = c.lastDefined
+		}
+	}()
 	c.n++
 	name := fmt.Sprintf("%s!%d", sanitize(hint), c.n)
 	c.decls = append(c.decls, fmt.Sprintf("(define-fun %s () %s %s)", name, sort, term))
+	c.lastDefined = name
 	return name
 }
 
@@ -198,7 +219,7 @@ func (c *Ctx) strLitDecls() []string {
 
 // typeTag gives a stable positive integer for a dynamic type.
 func (c *Ctx) typeTag(t types.Type) string {
-	k := types.TypeString(t, nil)
+	k := canonTypeString(t)
 	if n, ok := c.typeTags[k]; ok {
 		return fmt.Sprint(n)
 	}
@@ -234,4 +255,18 @@ func expandLambdaDecl(line string, forCVC5 bool) string {
 		return fmt.Sprintf("(define-fun %s () (Array (_ BitVec 64) %s) (lambda ((k!l (_ BitVec 64))) %s))", name, sort, body)
 	}
 	return fmt.Sprintf("(declare-const %s (Array (_ BitVec 64) %s))\n(assert (forall ((k!l (_ BitVec 64))) (! (= (select %s k!l) %s) :pattern ((select %s k!l)))))", name, sort, name, body, name)
+}
+
+var byteRe = regexp.MustCompile(`\bbyte\b`)
+var runeRe = regexp.MustCompile(`\brune\b`)
+var anyRe = regexp.MustCompile(`\bany\b`)
+
+// canonTypeString is types.TypeString with the predeclared aliases expanded,
+// so identical types get identical keys.
+func canonTypeString(t types.Type) string {
+	k := types.TypeString(t, nil)
+	k = byteRe.ReplaceAllString(k, "uint8")
+	k = runeRe.ReplaceAllString(k, "int32")
+	k = anyRe.ReplaceAllString(k, "interface{}")
+	return k
 }
